@@ -479,4 +479,92 @@ theorem ttySession_items (A : Auto σ) (interp : Item σ → Cmd) (chunks : List
           simp only [Option.bind_some]
           exact ih w1 d1 more hr
 
+
+/-! ### containment of the byte writers -/
+
+/-- same surface; data changed only at in-window offsets appended to `touched` -/
+def Contained (w w' : Writer) : Prop :=
+  w'.shape = w.shape ∧ ∃ t, w'.touched = w.touched ++ t ∧ DExt w.shape w.data w'.data t
+
+theorem Contained.refl (w : Writer) : Contained w w := ⟨rfl, [], by simp, DExt.refl _ _⟩
+
+theorem Contained.trans {a b c : Writer} (h1 : Contained a b) (h2 : Contained b c) : Contained a c := by
+  obtain ⟨s1, t1, e1, d1⟩ := h1
+  obtain ⟨s2, t2, e2, d2⟩ := h2
+  exact ⟨s2.trans s1, t1 ++ t2, by rw [e2, e1, List.append_assoc], d1.trans (s1 ▸ d2)⟩
+
+theorem Contained.of_ext {w w' : Writer} {t : List Nat} (h : WExt w w' t) : Contained w w' :=
+  ⟨h.shape, t, h.touched, h.data⟩
+
+theorem Contained.shOk {w w' : Writer} (h : Contained w w') (hok : ShOk w.shape w.data.length) :
+    ShOk w'.shape w'.data.length := by
+  obtain ⟨s, t, _, d⟩ := h
+  rw [s, d.len]; exact hok
+
+theorem putChar_contained (w : Writer) (c : Nat) (hok : ShOk w.shape w.data.length) :
+    ∃ w' b, putChar w c = some (w', b) ∧ Contained w w' := by
+  obtain ⟨w', b, t, h, he, _⟩ := putPlain_ok w ⟨w.face, .chr c⟩ hok
+  exact ⟨w', b, h, Contained.of_ext he⟩
+
+theorem writeGo_contained (A : Auto σ) (fuel : Nat) (w : Writer) (d : USt σ) (buf : List UInt8)
+    (hok : ShOk w.shape w.data.length) :
+    ∀ w' d' b, writeGo A putChar fuel w d buf = .ok (w', d', b) → Contained w w' := by
+  induction fuel generalizing w d buf with
+  | zero => intro w' d' b h; simp [writeGo] at h
+  | succ fuel ih =>
+    intro w' d' b h
+    simp only [writeGo] at h
+    split at h
+    · cases h
+    · cases h; exact Contained.refl w
+    · cases h; exact Contained.refl w
+    · split at h
+      · cases h
+      · rename_i ch _
+        obtain ⟨w1, b1, hp, hc⟩ := putChar_contained w ch hok
+        rw [hp] at h
+        cases b1 with
+        | false => simp only at h; cases h; exact hc
+        | true => simp only at h; exact hc.trans (ih w1 _ _ (hc.shOk hok) w' d' b h)
+
+theorem session_contained (A : Auto σ) (chunks : List (List UInt8)) (w : Writer) (d : USt σ)
+    (hok : ShOk w.shape w.data.length) :
+    ∀ w' rs, session A putChar w d chunks = .ok (w', rs) → Contained w w' := by
+  induction chunks generalizing w d with
+  | nil => intro w' rs h; simp [session] at h; rw [← h.1]; exact Contained.refl w
+  | cons chunk cs ih =>
+    intro w' rs h
+    simp only [session, write] at h
+    split at h
+    · cases h
+    · rename_i w1 d1 hw
+      cases h
+      exact writeGo_contained A _ w d chunk hok _ _ _ hw
+    · rename_i w1 d1 hw
+      have h1 := writeGo_contained A _ w d chunk hok _ _ _ hw
+      split at h
+      · cases h
+      · rename_i w2 rs2 hs
+        cases h
+        exact h1.trans (ih w1 d1 (h1.shOk hok) _ _ hs)
+
+theorem applyCmds_contained (w : Writer) (cmds : List Cmd) (hok : ShOk w.shape w.data.length) :
+    ∃ w', applyCmds w cmds = some w' ∧ Contained w w' := by
+  induction cmds generalizing w with
+  | nil => exact ⟨w, rfl, Contained.refl w⟩
+  | cons c cs ih =>
+    have h1 : ∃ w1, applyCmd w c = some w1 ∧ Contained w w1 := by
+      cases c with
+      | char ch =>
+        obtain ⟨w1, b1, hp, hc⟩ := putChar_contained w ch hok
+        exact ⟨w1, by simp [applyCmd, hp], hc⟩
+      | face f => exact ⟨_, rfl, rfl, [], by simp, DExt.refl _ _⟩
+      | image ph pw =>
+        obtain ⟨w1, b1, t, hp, he⟩ := putCell_ok w ⟨Face.dflt, .image ph pw⟩ hok
+        exact ⟨w1, by simp [applyCmd, hp], Contained.of_ext he⟩
+      | other => exact ⟨w, rfl, Contained.refl w⟩
+    obtain ⟨w1, hp, hc⟩ := h1
+    obtain ⟨w2, hp2, hc2⟩ := ih w1 (hc.shOk hok)
+    exact ⟨w2, by simp only [applyCmds, hp, hp2], hc.trans hc2⟩
+
 end SurfProofs.Lemmas.TextChunk
